@@ -92,6 +92,7 @@ type Exec struct {
 	idleTicks    int
 	prefer       *Term
 	natural      bool
+	fpPrecise    bool
 	coros        []*coro
 	curCoro      *coro
 	progress     int
@@ -872,6 +873,13 @@ func (e *Exec) constVal(c *ssa.Const) Value {
 			return VBool{BoolC(constant.BoolVal(c.Value))}
 		case u.Info()&types.IsString != 0:
 			return VStr{constant.StringVal(c.Value)}
+		case u.Info()&types.IsFloat != 0 && e.fpPrecise:
+			fv := constant.ToFloat(c.Value)
+			num, _ := new(big.Int).SetString(constant.Num(fv).ExactString(), 10)
+			den, _ := new(big.Int).SetString(constant.Denom(fv).ExactString(), 10)
+			if num != nil && den != nil && den.Sign() != 0 {
+				return VFloat{fpConst(new(big.Rat).SetFrac(num, den))}
+			}
 		}
 	}
 	return VOpaque{"const " + c.String()}
@@ -1091,6 +1099,9 @@ func (e *Exec) unop(fr *frame, in *ssa.UnOp) Value {
 		return VBool{Not(x.(VBool).T)}
 	case token.SUB:
 		if isFloat(in.X.Type()) {
+			if e.fpPrecise {
+				return VFloat{app(SFP, "fp.neg", e.fterm(x))}
+			}
 			return floatTok
 		}
 		t := x.(VInt).T
@@ -1125,7 +1136,60 @@ func isFloat(t types.Type) bool {
 // about code that computes through float64 therefore holds for any floating-point behaviour.
 var floatTok = VOpaque{"float"}
 
+// fterm: the binary64 term of a float value (fp_precise mode)
+func (e *Exec) fterm(v Value) Term {
+	switch x := v.(type) {
+	case VFloat:
+		return x.T
+	case VOpaque:
+		if strings.HasPrefix(x.Why, "zero of") {
+			return Term{S: "(_ +zero 11 53)", Sort: SFP}
+		}
+		// an abstract float that reached precise code (e.g. from an @float stub): any value
+		e.nondet++
+		return e.fresh(sprintf("fany_%d", e.nondet), SFP)
+	}
+	e.fail("float term of %T", v)
+	return Term{}
+}
+
+func fpConst(r *big.Rat) Term {
+	neg := r.Sign() < 0
+	a := new(big.Rat).Abs(r)
+	lit := sprintf("((_ to_fp 11 53) RNE (/ %s.0 %s.0))", a.Num().String(), a.Denom().String())
+	if neg {
+		lit = "(fp.neg " + lit + ")"
+	}
+	return Term{S: lit, Sort: SFP}
+}
+
 func (e *Exec) binop(op token.Token, x, y Value, xt types.Type) Value {
+	if isFloat(xt) && e.fpPrecise {
+		a, b := e.fterm(x), e.fterm(y)
+		switch op {
+		case token.EQL:
+			return VBool{app(SBool, "fp.eq", a, b)}
+		case token.NEQ:
+			return VBool{Not(app(SBool, "fp.eq", a, b))}
+		case token.LSS:
+			return VBool{app(SBool, "fp.lt", a, b)}
+		case token.LEQ:
+			return VBool{app(SBool, "fp.leq", a, b)}
+		case token.GTR:
+			return VBool{app(SBool, "fp.gt", a, b)}
+		case token.GEQ:
+			return VBool{app(SBool, "fp.geq", a, b)}
+		case token.ADD:
+			return VFloat{app(SFP, "fp.add RNE", a, b)}
+		case token.SUB:
+			return VFloat{app(SFP, "fp.sub RNE", a, b)}
+		case token.MUL:
+			return VFloat{app(SFP, "fp.mul RNE", a, b)}
+		case token.QUO:
+			return VFloat{app(SFP, "fp.div RNE", a, b)}
+		}
+		e.fail("float operation %v", op)
+	}
 	if isFloat(xt) {
 		switch op {
 		case token.EQL, token.NEQ, token.LSS, token.LEQ, token.GTR, token.GEQ:
@@ -1277,6 +1341,37 @@ func (e *Exec) ifaceEq(a, b VIface) Term {
 }
 
 func (e *Exec) convert(x Value, from, to types.Type) Value {
+	if e.fpPrecise && (isFloat(to) || isFloat(from)) {
+		if isFloat(to) && isFloat(from) {
+			return VFloat{e.fterm(x)}
+		}
+		if isFloat(to) {
+			t := x.(VInt).T
+			if intMode {
+				return VFloat{app(SFP, "(_ to_fp 11 53) RNE", app(SReal, "to_real", t))}
+			}
+			if isSigned(from) {
+				return VFloat{app(SFP, "(_ to_fp 11 53) RNE", t)}
+			}
+			return VFloat{app(SFP, "(_ to_fp_unsigned 11 53) RNE", t)}
+		}
+		tb := to.Underlying().(*types.Basic)
+		w, sg := intWidth(tb)
+		f := e.fterm(x)
+		if sg {
+			bv := app(w, sprintf("(_ fp.to_sbv %d) RTZ", w), f)
+			if intMode {
+				u := app(SInt, "bv2nat", bv)
+				return VInt{Ite(IntCmp("<", u, IntC(pow2(w-1))), u, IntBin("-", u, IntC(pow2(w))))}
+			}
+			return VInt{bv}
+		}
+		bv := app(w, sprintf("(_ fp.to_ubv %d) RTZ", w), f)
+		if intMode {
+			return VInt{app(SInt, "bv2nat", bv)}
+		}
+		return VInt{bv}
+	}
 	if isFloat(to) {
 		return floatTok
 	}
@@ -1881,7 +1976,11 @@ func (e *Exec) builtinStub(spec string, fn *ssa.Function, args []Value) Value {
 		}
 		return VSlice{arr, 0, n, n}
 	case "@float":
-		// a function that computes a float64: any value (floats are abstracted)
+		// a function that computes a float64: any value (floats are abstracted); in
+		// fp_precise mode the real body is executed instead
+		if e.fpPrecise {
+			return e.callBody(fn, args)
+		}
 		return floatTok
 	case "@pred":
 		var all []Term
